@@ -386,6 +386,12 @@ class PrettyPrinter:
         """
         attr_props = self.unwrap_all_of(attr_props)
 
+        if isinstance(value, dict):
+            # e.g. an empty dict created by reading a missing key - it cannot be written as a Mapfile value
+            raise ValueError(
+                f"The property {attr} has a dictionary without a __type__ as a value"
+            )
+
         if isinstance(value, bool):
             return str(value).upper()
 
